@@ -229,7 +229,7 @@ func checkC12(c *Ctx) {
 	m := w.runner()
 	c.rule("C12.R1", "every return of the end marker (nil, nil) in Next is reached only with the continuation stack empty (after Clear or on the empty edge of a Size()==0 test, no push since)", 2)
 	c.rule("C12.R2", "after the choice argument is consumed (Options[choice]), every path stores to lastStatement before Next returns or recurses (a consumed choice is never left pending)", 1)
-	c.rule("C12.R3", "on the path feasible under INV_END (no pending command, not waiting for a choice, stack empty) Next performs no call, store, send, receive or goroutine start", 3)
+	c.rule("C12.R3", "on the path feasible under INV_END (no pending command, not waiting for a choice, stack empty) Next performs no call, store, send, receive or goroutine start", 2)
 	if !m.ok(c, "C12") {
 		return
 	}
